@@ -219,6 +219,6 @@ def check_tracks(ctx: Ctx, case) -> None:
 
 PARTS: list[Part] = [
     custom_part("table", drive_table, check_table, {"quick": 8, "thorough": 8}),
-    hyp_part("tracks", strat_tracks, check_tracks, {"quick": 400, "thorough": 14000},
-             {"quick": 6, "thorough": 16}),
+    hyp_part("tracks", strat_tracks, check_tracks, {"quick": 600, "thorough": 14000},
+             {"quick": 8, "thorough": 16}),
 ]
